@@ -24,7 +24,7 @@
 
 use arrow::array::*;
 use arrow::buffer::{BooleanBuffer, Buffer, NullBuffer, OffsetBuffer, ScalarBuffer};
-use arrow::datatypes::{self as adt, DataType, Field, Fields, IntervalUnit, TimeUnit, UnionFields, UnionMode, i256};
+use arrow::datatypes::{self as adt, ArrowNativeType, DataType, Field, Fields, IntervalUnit, TimeUnit, UnionFields, UnionMode, i256};
 use half::f16;
 use proptest::prelude::*;
 use serde::{Deserialize, Serialize};
@@ -60,13 +60,14 @@ pub enum Value {
     Union(i8, Box<Value>),
 }
 
-/// f64 as JSON: finite numbers as numbers (exact round trip, `-0.0` kept), the rest as strings.
+/// f64 as JSON strings ("1.5", "-0.0", "NaN", "inf", "nan:0x…") with an exact round trip; plain numbers are accepted on input.
 mod fjson {
     use serde::de::{self, Visitor};
     use serde::{Deserializer, Serializer};
     pub fn serialize<S: Serializer>(v: &f64, s: S) -> Result<S::Ok, S::Error> {
         if v.is_finite() {
-            s.serialize_f64(*v)
+            // as text: serde_json's number parser is not exact to the last bit without `float_roundtrip`
+            s.serialize_str(&format!("{v:?}"))
         } else if v.is_nan() {
             if v.to_bits() == f64::NAN.to_bits() { s.serialize_str("NaN") } else { s.serialize_str(&format!("nan:{:#018x}", v.to_bits())) }
         } else if *v > 0.0 {
@@ -423,5 +424,5 @@ mod read;
 mod render;
 mod strat;
 pub use read::array_to_values;
-pub use render::{Encoding, Layout, NullVia, encoding_features, render, render_nonnull};
+pub use render::{Encoding, Layout, NullVia, encoding_features, render, render_nonnull, try_render};
 pub use strat::*;
